@@ -206,7 +206,8 @@ pub fn parse_line(line: &str) -> LineInfo {
 
         if has_backslash && sep.is_empty()
                 && (c == '>' || c == '<'
-                    || (!met_parenthesis && (c == '&' || c == '*' || c == '~' || c == '{'))) {
+                    || (!met_parenthesis
+                        && (c == '&' || c == '*' || c == '~' || c == '{' || c == '`'))) {
             sep_made = String::from("'");
             token.push(c);
             has_backslash = false;
@@ -227,6 +228,9 @@ pub fn parse_line(line: &str) -> LineInfo {
                 sep = String::from("\\");
                 token = format!("{}", c);
             } else {
+                if c == '$' && sep.is_empty() && !met_parenthesis {
+                    sep_made = String::from("'");
+                }
                 token.push(c);
             }
             new_round = false;
